@@ -138,6 +138,7 @@ type Frame struct {
 	entry    *MemSnap
 	env      map[string]T // param / result names for the contract
 	paramSet map[string]bool
+	paramObjs map[string]types.Object
 	top      bool
 }
 
